@@ -34,7 +34,7 @@ CLAIMED["C15"] = dict(
          "(coversSpec = textual prefix + segment boundary; validCmd = leading slash, no trailing slash, lower-case fixed point); "
          "reflexivity, antisymmetry, transitivity, top-covers-all and no-textual-prefix are proved as lemmas over coversSpec.",
     note="Assumed: strings.HasPrefix/HasSuffix as their definitions; 'no upper-case letters' is read as strings.ToLower(s)==s. "
-         "The bridge from coversSpec to 'segments are a list prefix' is a Lean 4 proof (lemmas/Seg.lean) re-checked by lean on every run, with a drift guard tying its definition to the contract's coversSpec; the string-vs-character-list reading of that definition is by inspection. Join/Segments are not under contract.",
+         "The bridge from coversSpec to 'segments are a list prefix' is a Lean 4 proof (lemmas/Seg.lean) re-checked by lean on every run, with a drift guard tying its definition to the contract's coversSpec; the string-vs-character-list reading of those definitions is by inspection. Command.Join is verified against the fold joinSpec (size bounds as preconditions: at most 2^20 segments of at most 2^32 bytes), Command.Segments against the pieces of strings.Split (named by ghost functions; that Split is Lean's splitOn is assumed); Lean proves segs(joinSpec c ss) = segs c ++ ss for non-empty separator-free segments.",
     design="DESIGN.md §3 C15")
 CLAIMED["C13"] = dict(
     text="Proof (unbounded): glob.Match is verified for every pattern and every string against the recursive language definition globM "
@@ -81,7 +81,8 @@ CLAIMED["C08"] = dict(
     text="Proof: CIDFromBytes and cidFromHash are verified to return cidSum(1, dag-cbor, sha2-256, default length) of the given bytes / of everything absorbed by the hash; "
          "CIDReader.Read and CIDWriter.Write are verified to absorb exactly the bytes handed through, and their stream invariants carry this across the unknown number of calls a codec makes; "
          "ToSealed, ToSealedWriter, FromSealed, FromSealedReader (delegation, invocation and the generic token package) are verified to report ucanCid of exactly the sealed bytes written / read, "
-         "so buffered and streaming calls and seal and unseal agree by congruence.",
+         "so buffered and streaming calls and seal and unseal agree by congruence. Signing may be randomised: the sealed node is a function of (token, key, signing index) and every sealing function is verified to sign exactly once; "
+         "every method declared on CIDReader / CIDWriter must be under contract (a dependency may reach it through an optional interface).",
     note=STREAM_NOTE + " Not decided here (honest gap): the canonicity clause — dagcbor.Decode is lenient (an assumed contract states only determinism), so two byte strings with the same decoded content "
          "may both be accepted under different CIDs; toIPLD (envelope construction and signing) is used through a trusted contract naming the sealed node.",
     design="DESIGN.md §3 C08, §7")
@@ -116,15 +117,16 @@ CLAIMED["C12"] = dict(
     design="DESIGN.md §3 C12, §7")
 
 CLAIMED["C14"] = dict(
-    text="Proof for the selector parser: tokenize is verified (loop invariant) to cut the text so that the first token starts it and the last token ends it — nothing after an unterminated quote is dropped — "
-         "and no token is empty; Parse is verified to produce exactly one segment per token that records the token's text (an optional marker on a mid-selector identity is the only normalisation), "
-         "the optional flag of the token, a well-formed slice (0 or 2 bounds) whose two bounds are owned by that segment alone, and a field segment for every quoted name (an empty quoted name is rejected); "
-         "rejected input returns no selector. policy.FromIPLD / statementFromIPLD / statementsFromIPLD are verified (mutual recursion with a termination measure on the node) to return one non-nil statement per list element, "
-         "carrying exactly the operator of that element, or an error.",
-    note="Not proved (honest gap): adjacency of the middle tokens (that consecutive tokens abut — would need a concatenation spec over the token slice) and therefore String(Parse(s)) == s; "
-         "policy write-back is under contract at the level of shape (statementsToIPLD / statementToIPLD: one [op, ...] tuple per statement, carrying the statement's operator, mutual recursion with a measure on finite statement trees), "
-         "which with the decoder's shape contract gives preservation of lengths and operators across a round trip; deep equality of the leaf values and behavioural equality after a round trip are not under contract. "
-         "Assumed: what the three regular expressions guarantee about a matching text (first characters, presence of ':') — read off the patterns and stated as `given` clauses; strconv / strings helpers through stubs.",
+    text="Proof for the selector side: tokenize is verified (loop invariant over a recursive concatenation spec of the token slice) to cut the text into non-empty tokens that, joined, are the input — nothing is dropped, "
+         "also after an unterminated quote; Parse is verified to produce exactly one segment per token that records the token's text (an identity token's optional markers are the only normalisation), "
+         "the optional flag, a well-formed slice whose two bounds are owned by that segment alone, a field segment for every quoted name (an empty quoted name is rejected), and no selector on rejected input; "
+         "Selector.String is verified to print the recorded texts joined; hence (Parse post-condition `roundtrip`, by induction lemmas) printing a parsed selector reproduces the input whenever nothing was normalised. "
+         "Proof for the policy side: FromIPLD / statementFromIPLD / statementsFromIPLD are verified (mutual recursion with a termination measure on the node) to return an error or a *faithful reading* of the node "
+         "(relation reprs, defined by structural recursion: exact tuple length per operator, the operator, literal and pattern taken over unchanged, nested statements faithful readings of the nested nodes, one per element).",
+    note="Not proved (honest gaps): policy write-back (statementsToIPLD / statementToIPLD) is under contract at the level of shape and operator only, so 'read then written back is deep-equal' is decided for lengths and operators, "
+         "not for leaf values; the selector stored in a decoded statement is not related to the node's text inside reprs; behavioural equality after a round trip is not under contract. "
+         "Assumed: what the three regular expressions guarantee about a matching text (first characters, presence of ':') — `given` clauses that hold only for the exact pattern text found in the package initialiser "
+         "(an edited pattern loses them); the definitional unfolding of reprs at the decoder's return points (statements are immutable once built); strconv / strings helpers through stubs.",
     design="DESIGN.md §3 C14, §7")
 
 CLAIMED["C11"] = dict(
